@@ -1,6 +1,7 @@
 // C05: changing representation preserves the field.
 // One shard = one SOURCE storage order (SH_SRC); targets vary inside.
 #include <cstdint>
+#include <limits>
 #include <variant>
 #include <vector>
 
@@ -133,6 +134,9 @@ struct Conv {
         const std::string nm = std::string(lname[LA]) + "->" + lname[LB] + ",N=" + std::to_string(N) + ",array<" + vh::tn<S>() + "," + std::to_string(M) + ">" + (std::is_same_v<IDX, std::size_t> ? "" : std::string(",idx=") + vh::tn<IDX>());
         if (!vh::selected(nm)) return;
         (void)listed;
+        // the row-major layer accumulates the flat index in the coordinate type: a field with more cells than that
+        // type can count is outside the domain (stated in C01/C14 as well)
+        if (sizeof(IDX) < 8 && sc::cells<N>(e) > (uint64_t)std::numeric_limits<IDX>::max()) return;
         {
             vh::set_case("%s extents=%s", nm.c_str(), sc::show<N>(e).c_str());
             const std::string d = "extents=" + sc::show<N>(e) + " ";
